@@ -82,6 +82,7 @@ type cbEvent struct {
 	Hash   bitcoin.Hash32
 	Prev   bitcoin.Hash32
 	NodeID int
+	Held   string // for a notification with a merkle proof: "" if the node holds the proof's header at that height when notified, else what it holds
 }
 
 type recorder struct {
@@ -96,6 +97,22 @@ func (r *recorder) add(e cbEvent) {
 		r.w.tracef("CALLBACK %s h=%d tx=%s state=%+v", e.Kind, e.Height, e.TxID.String()[:8], e.State)
 	}
 	e.NodeID = r.w.nodeGen
+	if mp := e.State.MerkleProof; mp != nil && r.id == 0 && r.w.Node != nil {
+		// which header does the node hold, right now, at the height of the proof's block?
+		ph := *mp.BlockHeader.BlockHash()
+		if bn, ok := r.w.Tree.byHash[ph]; ok {
+			h := r.w.Tree.blocks[bn].height
+			got, err := r.w.Node.Hash(core.Ctx(), h)
+			switch {
+			case err != nil || got == nil:
+				e.Held = fmt.Sprintf("nothing at height %d", h)
+			case !got.Equal(&ph):
+				e.Held = fmt.Sprintf("another block at height %d", h)
+			}
+		} else {
+			e.Held = "unknown header"
+		}
+	}
 	r.events = append(r.events, e)
 	if r.w.onCallback != nil {
 		r.w.onCallback(r.id, e)
